@@ -194,6 +194,9 @@ class Flow:
         if isinstance(e, ast.Constant):
             return {'const:' + repr(e.value)}
         if isinstance(e, ast.Name):
+            if bind and ('=' + e.id) in bind:
+                # loop variable specialised to one row of a constant table
+                return set(bind['=' + e.id])
             c = self._comp_binding(e, fn)
             if c is not None:
                 it, idx = c
@@ -434,6 +437,28 @@ class Flow:
                                     out.add((a[6:] if a.startswith('param:')
                                              else a) + rest)
                         return out
+                if isinstance(first, ast.Attribute) and root.id in (
+                        'self', 'cls') and depth < self.max_depth:
+                    # a class-level table (X = {...} / dict(...) in the
+                    # class body): what it holds, besides the path itself
+                    ci = fn.cls
+                    if ci is None:
+                        for sc in self._scope_chain(fn):
+                            if sc.cls is not None:
+                                ci = sc.cls
+                                break
+                    if ci is not None:
+                        owner, v = ci.find_attr(first.attr)
+                        if v is not None and isinstance(
+                                v, (ast.Dict, ast.Call, ast.List, ast.Tuple,
+                                    ast.DictComp, ast.ListComp)) and \
+                                first.attr in owner.attrs:
+                            out |= {a if a.startswith(('via:', 'const:',
+                                                       'key:', 'alloc:'))
+                                    else 'via:' + a
+                                    for a in self.atoms(v, None, None,
+                                                        depth + 1, _seen)
+                                    if not a.startswith(('const:', 'key:'))}
                 if isinstance(first, ast.Subscript):
                     lf = self._local_field(root.id, first.slice, fn, bind,
                                            depth, _seen)
@@ -819,6 +844,31 @@ class Flow:
         if isinstance(k, ast.Attribute) and isinstance(k.value, ast.Name) \
                 and k.attr in ('name', 'value') and fn is not None:
             return None
+        if isinstance(k, ast.BinOp) and isinstance(k.op, ast.Add):
+            l = self.const_keys(k.left, fn, bind, _seen)
+            r = self.const_keys(k.right, fn, bind, _seen)
+            if l is not None and r is not None and len(l) * len(r) <= 16 \
+                    and all(isinstance(x, str) for x in l + r):
+                return [a + b for a in l for b in r]
+            return None
+        if isinstance(k, ast.Name) and fn is not None and not (
+                bind and ('=' + k.id) in bind):
+            c = self._comp_binding(k, fn)
+            if c is not None:
+                rows = self.const_rows(c[0], fn, bind)
+                if rows is not None:
+                    try:
+                        vals = [row if c[1] is None else row[c[1]]
+                                for row in rows]
+                    except (TypeError, IndexError):
+                        vals = None
+                    if vals is not None and all(isinstance(
+                            v, (str, int)) for v in vals):
+                        out = []
+                        for v in vals:
+                            if v not in out:
+                                out.append(v)
+                        return out
         if isinstance(k, ast.Name) and fn is not None:
             a = self.atoms(k, fn, bind, 0, _seen)
             if a and all(x.startswith('const:') for x in a):
@@ -828,6 +878,94 @@ class Flow:
                 except Exception:
                     return None
         return None
+
+    def const_rows(self, it, fn, bind=None, _d=0):
+        """The rows of a constant table an iterable expression denotes: a
+        tuple/list display of constants or of tuples of constants, reached
+        directly, through a single-definition local, a module-level name, a
+        list()/tuple() copy, or a comprehension that passes its rows
+        through (possibly filtering them). None when it is not one."""
+        if _d > 4 or it is None:
+            return None
+        if isinstance(it, (ast.Tuple, ast.List)):
+            rows = []
+            for x in it.elts:
+                if isinstance(x, ast.Constant):
+                    rows.append(x.value)
+                elif isinstance(x, (ast.Tuple, ast.List)) and all(
+                        isinstance(y, ast.Constant) for y in x.elts):
+                    rows.append(tuple(y.value for y in x.elts))
+                else:
+                    return None
+            return rows if 0 < len(rows) <= 8 else None
+        if isinstance(it, ast.Call) and isinstance(it.func, ast.Name) and \
+                it.func.id in ('list', 'tuple') and len(it.args) == 1 and \
+                not it.keywords:
+            return self.const_rows(it.args[0], fn, bind, _d + 1)
+        if isinstance(it, (ast.ListComp, ast.GeneratorExp)) and len(
+                it.generators) == 1:
+            g = it.generators[0]
+            if unparse(it.elt).replace('(', '').replace(')', '') == \
+                    unparse(g.target).replace('(', '').replace(')', ''):
+                return self.const_rows(g.iter, fn, bind, _d + 1)
+            return None
+        if isinstance(it, ast.Name):
+            if fn is not None and self._is_local(it.id, fn):
+                for sc in self._scope_chain(fn):
+                    ds = self.defs(sc.node).get(it.id)
+                    if ds:
+                        if len(ds) == 1 and ds[0][0] == 'value' and \
+                                it.id not in Q.params(sc.node):
+                            return self.const_rows(ds[0][1], sc, bind,
+                                                   _d + 1)
+                        return None
+                return None
+            mod = fn.module if fn is not None else None
+            if mod is None:
+                return None
+            try:
+                r = self.repo.resolve_symbol(mod.name, it.id)
+            except Exception:
+                r = None
+            if r is not None and r[0] == 'value' and r[3] is not None:
+                return self.const_rows(r[3], None, None, _d + 1)
+        return None
+
+    def loop_rows(self, loop, fn, bind=None):
+        """[{name: constant}] for a `for` loop over a constant table (one
+        dict per row, keyed by the target names); None otherwise."""
+        rows = self.const_rows(loop.iter, fn, bind)
+        if rows is None:
+            return None
+        t = loop.target
+        out = []
+        for row in rows:
+            if isinstance(t, ast.Name):
+                out.append({t.id: row})
+            elif isinstance(t, (ast.Tuple, ast.List)) and isinstance(
+                    row, tuple) and len(row) == len(t.elts) and all(
+                        isinstance(x, ast.Name) for x in t.elts):
+                out.append({x.id: v for x, v in zip(t.elts, row)})
+            else:
+                return None
+        return out
+
+    def _getattr_paths(self, e, fn, bind, depth, _seen):
+        """Access paths of getattr(obj, <name(s) known statically>)."""
+        if not (isinstance(e, ast.Call) and isinstance(e.func, ast.Name) and
+                e.func.id == 'getattr' and len(e.args) >= 2):
+            return None
+        ks = self.const_keys(e.args[1], fn, bind, _seen)
+        if not ks or len(ks) > 8 or not all(isinstance(k, str) for k in ks):
+            return None
+        out = set()
+        for r in self.atoms(e.args[0], fn, bind, depth, _seen):
+            if r.startswith(('const:', 'key:', 'alloc:', 'via:')):
+                continue
+            base = r[6:] if r.startswith('param:') else r
+            for k in ks:
+                out.add(base + '.' + k)
+        return out
 
     def record(self, e, fn, bind=None, depth=0, _seen=None):
         """{key: [(value expr, fn, bind)]} for a dict-shaped expression --
@@ -1142,6 +1280,15 @@ class Flow:
             for a in e.args[2:]:
                 out |= A(a)
             return out
+        if fname == 'getattr':
+            gp = self._getattr_paths(e, fn, bind, depth, _seen)
+            if gp:
+                out |= gp
+                out |= {a for a in A(e.args[0])
+                        if not a.startswith('const:')}
+                for a in e.args[2:]:
+                    out |= A(a)
+                return out
         if fname in TRANSPARENT:
             for a in args:
                 out |= A(a)
@@ -1236,7 +1383,11 @@ class Flow:
             if not heads:
                 heads.add(unparse(f))
         elif isinstance(f, ast.Call):
-            heads |= self._call_texts(f, fn, bind, depth, _seen)
+            gp = self._getattr_paths(f, fn, bind, depth, _seen)
+            if gp:
+                heads |= gp          # getattr(obj, 'm')(..) is obj.m(..)
+            else:
+                heads |= self._call_texts(f, fn, bind, depth, _seen)
         elif isinstance(f, ast.Name):
             if fn is not None and self._is_local(f.id, fn):
                 done = False
